@@ -169,8 +169,12 @@ CHECKS = {
     text='partial. Theorems for every input: scanner, removal of pure action '
          'lines (the work-list loop whose termination is not evident), phrase '
          'replacement and multi-language split terminate within the fuel the '
-         'model passes and return no exception. Not a theorem: the same for '
-         'the expander; decided by the differential run of outcome classes '
+         'model passes and return no exception; so does the main loop of the '
+         'expander (and Parser.parser_work) on every token list / document of '
+         'the class of C02 (plain text, special sequences, undeclared control '
+         'words, comments, braces, nested pass-through macros; membership is '
+         'decidable, the decision procedure is proved sound). Not a theorem: '
+         'the same for the expander on arbitrary input; decided by the differential run of outcome classes '
          'on the malformed stream with a time limit per case; non-termination '
          'caused by self-calling or multiplying definitions of the document '
          'is classified as outside the claim by a counting re-run',
